@@ -36,7 +36,7 @@ def apply(obj, action, methods):
 
 
 def explore(make, actions, methods, canon, spec_init, spec_step, observe, max_depth, res,
-            reject_types=CONFIG_ERRORS, on_node=None):
+            reject_types=CONFIG_ERRORS, on_node=None, on_dont_accepted=None):
     """Returns (states, transitions, fixpoint_reached, max_depth_seen).
 
     spec_step(spec_state, action) -> (cls, next_spec_state, expected_observable | None)
@@ -77,7 +77,10 @@ def explore(make, actions, methods, canon, spec_init, spec_step, observe, max_de
                     res.violation("well-formed-call-rejected", case, {"class": cls}, list(out))
                     continue
                 if expected is not None:
-                    got = observe(trial)
+                    try:
+                        got = observe(trial)
+                    except Exception as e:  # noqa: BLE001 - reading an accepted definition must not fail
+                        got = {"reading the accepted definition raised": f"{type(e).__name__}: {e}"}
                     if got != expected:
                         res.violation("accepted-definition-differs-from-what-was-supplied", case, expected, got)
                         continue
@@ -89,7 +92,13 @@ def explore(make, actions, methods, canon, spec_init, spec_step, observe, max_de
                     nxt = st
             else:  # DONT
                 if out[0] == "OK":
-                    continue  # property does not define the resulting state: prune
+                    # the property does not define the resulting state: prune; an optional weak check may
+                    # still look at the accepted object (e.g. nothing supplied earlier was dropped)
+                    if on_dont_accepted is not None:
+                        w = on_dont_accepted(trial, st, action)
+                        if w:
+                            res.violation(w[0], case, w[1], w[2])
+                    continue
                 if out[0] == "FAIL":
                     res.violation("builder-call-raised-assertion-error", case, {"class": cls}, list(out))
                     continue
